@@ -25,6 +25,13 @@ type Canon struct {
 	memo   map[ssa.Value]string
 	stack  map[ssa.Value]bool
 	locals map[*ssa.Alloc]string
+	// virtual inlining (inline.go): parameter -> caller's term, callers being inlined into, cache
+	env   map[*ssa.Parameter]string
+	chain []*ssa.Function
+	inl   map[*ssa.CallCommon]*FuncFacts
+	// rotated counted loops (loops.go)
+	rot     []*rotLoop
+	rotDone bool
 }
 
 // localName names an address-taken local by its type and ordinal among the
@@ -183,6 +190,9 @@ func (c *Canon) render(v ssa.Value, d int) string {
 	case *ssa.Const:
 		return c.constStr(v)
 	case *ssa.Parameter:
+		if s, ok := c.env[v]; ok {
+			return s
+		}
 		return "‹" + v.Name() + "›"
 	case *ssa.FreeVar:
 		return "‹" + v.Name() + "›"
@@ -237,7 +247,13 @@ func (c *Canon) render(v ssa.Value, d int) string {
 		switch v.Op {
 		case token.MUL:
 			switch x := v.X.(type) {
-			case *ssa.FieldAddr, *ssa.IndexAddr:
+			case *ssa.FieldAddr:
+				lv := c.lval(x, d)
+				if s, ok := selectLitField(lv); ok {
+					return s
+				}
+				return lv
+			case *ssa.IndexAddr:
 				return c.lval(x, d)
 			case *ssa.Global:
 				return c.termD(x, d+1)
@@ -319,12 +335,26 @@ func (c *Canon) render(v ssa.Value, d int) string {
 		}
 		return s
 	case *ssa.Extract:
+		if call, ok := v.Tuple.(*ssa.Call); ok {
+			if s, ok := c.inlinedResult(call, v.Index, d); ok {
+				return s
+			}
+		}
 		return c.termD(v.Tuple, d) + "#" + fmt.Sprint(v.Index)
 	case *ssa.Call:
+		if v.Common().Signature().Results().Len() == 1 {
+			if s, ok := c.inlinedResult(v, 0, d); ok {
+				return s
+			}
+		}
 		return c.call(v.Common(), d)
 	case *ssa.Phi:
 		if isInductionVar(v) {
 			return "‹i›"
+		}
+		carried, rl := c.rotExitPhi(v)
+		if carried != nil && len(v.Edges) == 2 {
+			return c.termD(carried, d)
 		}
 		if s, ok := c.itePhi(v, d); ok {
 			return s
@@ -333,7 +363,15 @@ func (c *Canon) render(v ssa.Value, d int) string {
 		seenPhi := map[*ssa.Phi]bool{v: true}
 		var walk func(ph *ssa.Phi)
 		walk = func(ph *ssa.Phi) {
-			for _, e := range ph.Edges {
+			for i, e := range ph.Edges {
+				if ph == v && carried != nil {
+					// the pre-test and latch inputs together are the loop-carried value
+					if pr := ph.Block().Preds[i]; pr == rl.pre {
+						continue
+					} else if pr == rl.latch {
+						e = carried
+					}
+				}
 				if p2, ok := e.(*ssa.Phi); ok {
 					if p2 == v && ph == v {
 						set["↺="] = true // some back edge leaves the value unchanged
@@ -650,6 +688,12 @@ func (c *Canon) condAtom(cond ssa.Value, pos bool) string {
 			}
 			return "false"
 		}
+	case *ssa.Call:
+		if hf := c.inlined(v.Common()); hf != nil && hf.mode == rejNone && v.Common().Signature().Results().Len() == 1 {
+			if rv, ok := hf.resultValue(0); ok {
+				return hf.c.condAtom(rv, pos)
+			}
+		}
 	}
 	s := c.term(cond)
 	if pos {
@@ -838,4 +882,75 @@ func freeVarWritten(fv *ssa.FreeVar, depth int) bool {
 		}
 	}
 	return false
+}
+
+// selectLitField: "pkg.T{a:x, b:pkg.U{c:y}}.b.c" -> "y". A field read from a composite literal
+// whose stores are all visible is the value stored there; the literal is only a carrier (e.g. a
+// descriptor built by the caller and read back by a helper).
+func selectLitField(lv string) (string, bool) {
+	changed := false
+	for {
+		open := strings.IndexByte(lv, '{')
+		if open <= 0 || strings.ContainsAny(lv[:open], " ()[]<>&*|,;") {
+			return lv, changed
+		}
+		depth, end := 0, -1
+		for i := open; i < len(lv); i++ {
+			switch lv[i] {
+			case '{', '(', '[':
+				depth++
+			case '}', ')', ']':
+				depth--
+			}
+			if depth == 0 {
+				end = i
+				break
+			}
+		}
+		if end < 0 || end+1 >= len(lv) || lv[end+1] != '.' {
+			return lv, changed
+		}
+		rest := lv[end+2:]
+		name := rest
+		if i := strings.IndexAny(rest, ".[ "); i >= 0 {
+			if rest[i] == ' ' {
+				return lv, changed
+			}
+			name = rest[:i]
+		}
+		rest = rest[len(name):]
+		// top-level entries of the literal
+		body := lv[open+1 : end]
+		val, found := "", false
+		depth = 0
+		start := 0
+		for i := 0; i <= len(body); i++ {
+			if i < len(body) {
+				switch body[i] {
+				case '{', '(', '[':
+					depth++
+				case '}', ')', ']':
+					depth--
+				}
+			}
+			if i == len(body) || (depth == 0 && body[i] == ',' && i+1 < len(body) && body[i+1] == ' ') {
+				ent := strings.TrimSpace(body[start:i])
+				if strings.HasPrefix(ent, name+":") {
+					val, found = ent[len(name)+1:], true
+				}
+				start = i + 1
+			}
+		}
+		if !found || strings.HasPrefix(val, "φ(") || strings.Contains(val, "…") || strings.Contains(val, "↺") {
+			return lv, changed
+		}
+		if rest != "" && strings.HasPrefix(val, "&") {
+			val = val[1:]
+		}
+		lv = val + rest
+		changed = true
+		if rest == "" {
+			return lv, true
+		}
+	}
 }
